@@ -20,7 +20,7 @@ int main(int argc, char** argv) {
     ECPIntegral eng(std::max(A.am(), B.am()), U.getL(), deriv);
     std::fprintf(f, "case %s\nint LA %d\nint LB %d\nint L %d\n", c.id.c_str(), A.am(), B.am(), U.getL());
     struct Mode { const char* tag; bool nt, ns, cont, fq; int site; int defer; };
-    Mode modes[] = {{"d", false, false, false, false}, {"nt", true, false, false, false}, {"ns", false, true, false, false}, {"nsnt", true, true, false, false}, {"all", true, true, true, false}, {"fq", true, true, true, true}, {"nsl", false, false, false, false, 1}, {"nsp", false, false, false, false, 2}, {"qd", false, false, false, false, 0, 3}, {"qd1", false, false, false, false, 0, 1}, {"qd2", false, false, false, false, 0, 2}, {"qd2nt", true, true, false, false, 0, 2}};
+    Mode modes[] = {{"d", false, false, false, false}, {"nt", true, false, false, false}, {"ns", false, true, false, false}, {"nsnt", true, true, false, false}, {"all", true, true, true, false}, {"fq", true, true, true, true}, {"nsl", false, false, false, false, 1}, {"nsp", false, false, false, false, 2}, {"qd", false, false, false, false, 0, 3}, {"qd1", false, false, false, false, 0, 1}, {"qd2", false, false, false, false, 0, 2}, {"qd2nt", true, true, false, false, 0, 2}, {"qd1nt", true, false, false, false, 0, 1}};
     for (auto& m : modes) {
       verif::ctl() = verif::Ctl(); verif::ctl().no_tail_cut = m.nt; verif::ctl().no_screen = m.ns; verif::ctl().continue_after_nonconv = m.cont; verif::ctl().force_quadrature_below = m.fq ? 1.0 : 0.0; verif::ctl().no_screen_l = (m.site == 1); verif::ctl().no_screen_prim = (m.site == 2); verif::ctl().quad_defer = m.defer;
       TwoIndex<double> v; eng.compute_shell_pair(U, A, B, v);
